@@ -298,6 +298,8 @@ def run(ctx):
     c08.rule_py_seed(ctx, ctx.py, "C14.SEED-PY")
     # ... and nothing survives from one set-up to the next: no function-local static (a cached normal deviate, a scratch buffer)
     c11.rule_static(ctx, tu, "C14.STATIC")
+    from .. import ffi
+    ffi.rule_sig(ctx, "C14.FFI", only={"mesh_state", "mesh_chstt", "seed", "init_state_processing"})
     from .. import lints
     lints.run(ctx, "C14", ctx.py, ["rdscript"], truth_floor=5)
     ctx.assume("totals, non-negativity, 'zero stays zero', the Poisson law and termination of the redistribution loop "
